@@ -34,4 +34,13 @@ m = dict(base)
 m["checks"] = checks
 m["not_applicable"] = sorted(na, key=lambda x: x["property_id"])
 json.dump(m, open(os.path.join(ROOT, "MANIFEST.json"), "w"), indent=1)
+# merge known-finding fragments
+kf = {"findings": [], "fixed": []}
+d = os.path.join(ROOT, "known_findings.d")
+for f in sorted(os.listdir(d)) if os.path.isdir(d) else []:
+    if f.endswith(".json"):
+        k = json.load(open(os.path.join(d, f)))
+        for key in ("findings", "fixed"):
+            kf[key] += k.get(key, [])
+json.dump(kf, open(os.path.join(ROOT, "known_findings.json"), "w"), indent=1)
 print("claimed:", sorted(claimed))
